@@ -7,16 +7,22 @@ import (
 	"strings"
 
 	"github.com/quay/claircore"
+	"github.com/quay/claircore/alpine"
 	"github.com/quay/claircore/debian"
 	"github.com/quay/claircore/indexer"
+	"github.com/quay/claircore/rhel"
+	"github.com/quay/claircore/toolkit/types/cpe"
 	"github.com/quay/claircore/ubuntu"
 	"github.com/quay/claircore/verifharness/internal/hx"
 )
 
-// The distribution scanners built on os-release (debian: through osrelease.Parse; ubuntu: its own
-// line loop). The release tables and what matchers do with the result are C04's; here: the
-// release a well-formed file states is the release reported, and another distribution's
-// file yields nothing.
+// The distribution scanners that read release files themselves: alpine (os-release through
+// osrelease.Parse, then etc/issue), rhel (etc/redhat-release, then etc/os-release, one
+// expression), debian (through osrelease.Parse), ubuntu (its own line loop over lsb-release
+// or os-release). The Lean model (Model/DistScan.lean) answers the same files; the direct
+// oracle: the release a well-formed file states is the release reported, another
+// distribution's files yield nothing. The release tables and what matchers do with the
+// result are C04's.
 
 func scanDist(s indexer.DistributionScanner, ents []ent) (ds []*claircore.Distribution, ok bool) {
 	l, err := mkLayer(ents)
@@ -38,6 +44,35 @@ func scanDist(s indexer.DistributionScanner, ents []ent) (ds []*claircore.Distri
 	return ds, ok
 }
 
+// distProto renders a scan result the way the model driver does.
+func distProto(ds []*claircore.Distribution, ok bool) string {
+	switch {
+	case !ok:
+		return "err"
+	case len(ds) == 0:
+		return "none"
+	case len(ds) > 1:
+		return fmt.Sprintf("many %d", len(ds))
+	}
+	d := ds[0]
+	h := func(s string) string { return hx.Hex([]byte(s)) }
+	c := ""
+	if d.CPE != (cpe.WFN{}) {
+		c = d.CPE.BindFS()
+		if w, err := cpe.Unbind("cpe:/o:redhat:enterprise_linux:" + d.Version); err == nil && w == d.CPE {
+			c = "cpe:/o:redhat:enterprise_linux:" + d.Version
+		}
+	}
+	return "dist " + strings.Join([]string{h(d.Name), h(d.DID), h(d.Version), h(d.VersionID), h(d.VersionCodeName), h(d.PrettyName), h(c)}, ",")
+}
+
+func optHex(b []byte, present bool) string {
+	if !present {
+		return "absent"
+	}
+	return hx.Hex(b)
+}
+
 func renderOsFile(r *hx.Rand, kvs []osKV, styles []int) []byte {
 	var w bytes.Buffer
 	for i := len(kvs) - 1; i > 0; i-- {
@@ -46,7 +81,7 @@ func renderOsFile(r *hx.Rand, kvs []osKV, styles []int) []byte {
 	}
 	for _, kv := range kvs {
 		kv.style = styles[r.Intn(len(styles))]
-		if kv.style == 0 && strings.ContainsAny(kv.value, " ()/") {
+		if kv.style == 0 && strings.ContainsAny(kv.value, " ()/;") {
 			kv.style = 1
 		}
 		w.WriteString(kv.render() + "\n")
@@ -54,7 +89,255 @@ func renderOsFile(r *hx.Rand, kvs []osKV, styles []int) []byte {
 	return w.Bytes()
 }
 
+// mutateText damages a release file a little (for the correspondence only).
+func mutateText(r *hx.Rand, b []byte) []byte {
+	s := string(b)
+	lines := strings.SplitAfter(s, "\n")
+	switch r.Intn(12) {
+	case 0:
+		if len(lines) > 1 {
+			i := r.Intn(len(lines))
+			lines = append(lines[:i], lines[i+1:]...)
+		}
+	case 1:
+		i := r.Intn(len(lines))
+		lines = append(lines[:i+1], lines[i:]...)
+	case 2:
+		return []byte(strings.ReplaceAll(s, "\n", "\r\n"))
+	case 3:
+		return []byte(strings.TrimRight(s, "\n"))
+	case 4:
+		return []byte(strings.ReplaceAll(s, "\"", "'"))
+	case 5:
+		return []byte(strings.ReplaceAll(s, "=", " = "))
+	case 6:
+		return []byte(strings.ToUpper(s))
+	case 7:
+		return []byte(strings.Replace(s, ".", "", 1))
+	case 8:
+		i := r.Intn(len(s) + 1)
+		return []byte(s[:i] + randFrom(r, "0123456789. ()\"=\n", 1+r.Intn(3)) + s[i:])
+	case 9:
+		if len(s) > 2 {
+			i := r.Intn(len(s) - 1)
+			return []byte(s[:i] + s[i+1:])
+		}
+	case 10:
+		return []byte("# comment\n\n" + s + "\n\n")
+	case 11:
+		return []byte(strings.Replace(s, "=", "==", 1))
+	}
+	return []byte(strings.Join(lines, ""))
+}
+
 func runDistScanners(r *hx.Run, rnd *hx.Rand, cfg hx.Config) {
+	runAlpineDist(r, rnd.Fork(), cfg)
+	runRhelDist(r, rnd.Fork(), cfg)
+	runDebianUbuntuDist(r, rnd.Fork(), cfg)
+}
+
+// ---- alpine ----
+
+func alpineOp(r *hx.Run, osr, issue []byte, hasOsr, hasIssue bool, nontrivial bool) ([]*claircore.Distribution, bool) {
+	var ents []ent
+	if hasOsr {
+		ents = append(ents, ent{path: "etc/os-release", data: osr})
+	}
+	if hasIssue {
+		ents = append(ents, ent{path: "etc/issue", data: issue})
+	}
+	ents = append(ents, ent{path: "etc/hostname", data: []byte("x\n")})
+	ds, ok := scanDist(&alpine.DistributionScanner{}, ents)
+	r.Op("alpdist "+optHex(osr, hasOsr)+" "+optHex(issue, hasIssue), distProto(ds, ok), nontrivial)
+	return ds, ok
+}
+
+func runAlpineDist(r *hx.Run, rnd *hx.Rand, cfg hx.Config) {
+	for i := 0; i < cfg.N(80, 1500) && !r.Stop(); i++ {
+		maj, min, patch := 3, rnd.Intn(25), rnd.Intn(12)
+		if rnd.Chance(1, 10) {
+			maj = 4 + rnd.Intn(9)
+		}
+		edge := rnd.Chance(1, 5)
+		vid := fmt.Sprintf("%d.%d.%d", maj, min, patch)
+		mm := fmt.Sprintf("%d.%d", maj, min)
+		pretty := "Alpine Linux v" + mm
+		wantVer := mm
+		if edge {
+			vid = fmt.Sprintf("%d.%d_alpha2024%02d%02d", maj, min, 1+rnd.Intn(12), 1+rnd.Intn(28))
+			if rnd.Chance(1, 2) {
+				vid = fmt.Sprintf("%d.%d.0_alpha2024%02d%02d", maj, min, 1+rnd.Intn(12), 1+rnd.Intn(28))
+			}
+			pretty = "Alpine Linux edge"
+			wantVer = "edge"
+		}
+		kvs := []osKV{{key: "NAME", value: "Alpine Linux"}, {key: "ID", value: "alpine"}, {key: "VERSION_ID", value: vid}, {key: "PRETTY_NAME", value: pretty},
+			{key: "HOME_URL", value: "https://alpinelinux.org/"}, {key: "BUG_REPORT_URL", value: "https://gitlab.alpinelinux.org/alpine/aports/-/issues"}}
+		osr := renderOsFile(rnd, kvs, []int{0, 1, 2})
+		issue := []byte("Welcome to Alpine Linux " + mm + "\nKernel \\r on an \\m (\\l)\n\n")
+		if edge {
+			issue = []byte("Welcome to Alpine Linux " + strings.Replace(vid, ".0_", "_", 1) + " (edge)\nKernel \\r on an \\m (\\l)\n\n")
+		}
+		layout := rnd.Intn(3) // both files, os-release only, issue only
+		hasOsr, hasIssue := layout != 2, layout != 1
+		ds, ok := alpineOp(r, osr, issue, hasOsr, hasIssue, true)
+		r.Case(fmt.Sprintf("alpine-dist %d", i), true)
+		r.Count(fmt.Sprintf("dist:alpine:layout:%d:edge=%v", layout, edge))
+		wit := fmt.Sprintf("os-release=%s issue=%s", quoteShort(osr), quoteShort(issue))
+		if !hasOsr {
+			wit = "issue=" + quoteShort(issue)
+		}
+		switch {
+		case !ok || len(ds) != 1:
+			r.Fail("", fmt.Sprintf("alpine distribution scanner reports %d distributions (ok=%v) for %s", len(ds), ok, wit))
+		case ds[0].DID != "alpine" || ds[0].Name != "Alpine Linux" || ds[0].Version != wantVer || ds[0].PrettyName != pretty:
+			r.Fail("", fmt.Sprintf("alpine distribution scanner reports %+v, the files state release %s (%s): %s", *ds[0], wantVer, pretty, wit))
+		default:
+			r.Count("dist:alpine:exact")
+		}
+		// other distributions' files: nothing
+		other := renderOsFile(rnd, []osKV{{key: "NAME", value: "Debian GNU/Linux"}, {key: "ID", value: "debian"}, {key: "VERSION_ID", value: "12"}, {key: "PRETTY_NAME", value: "Debian GNU/Linux 12 (bookworm)"}}, []int{0, 1})
+		if ds, ok := alpineOp(r, other, []byte("Debian GNU/Linux 12 \\n \\l\n\n"), true, true, false); !ok || len(ds) != 0 {
+			r.Fail("", "alpine distribution scanner reports a distribution for Debian's files")
+		}
+		// damaged files: correspondence only
+		alpineOp(r, mutateText(rnd, osr), mutateText(rnd, issue), rnd.Chance(3, 4), rnd.Chance(3, 4), true)
+	}
+}
+
+// ---- rhel ----
+
+func rhelOp(r *hx.Run, oracle bool, rh, osr []byte, hasRh, hasOsr bool, nontrivial bool) ([]*claircore.Distribution, bool) {
+	var ents []ent
+	if oracle {
+		ents = append(ents, ent{path: "etc/oracle-release", data: []byte("Oracle Linux Server release 8.6\n")})
+	}
+	if hasRh {
+		ents = append(ents, ent{path: "etc/redhat-release", data: rh})
+	}
+	if hasOsr {
+		ents = append(ents, ent{path: "etc/os-release", data: osr})
+	}
+	ents = append(ents, ent{path: "etc/hostname", data: []byte("x\n")})
+	ds, ok := scanDist(&rhel.DistributionScanner{}, ents)
+	o := "0"
+	if oracle {
+		o = "1"
+	}
+	r.Op("rheldist "+o+" "+optHex(rh, hasRh)+" "+optHex(osr, hasOsr), distProto(ds, ok), nontrivial)
+	return ds, ok
+}
+
+func runRhelDist(r *hx.Run, rnd *hx.Rand, cfg hx.Config) {
+	names := map[int]string{5: "Tikanga", 6: "Santiago", 7: "Maipo", 8: "Ootpa", 9: "Plow", 10: "Coughlan"}
+	for i := 0; i < cfg.N(80, 1500) && !r.Stop(); i++ {
+		n := 5 + rnd.Intn(6)
+		if rnd.Chance(1, 8) {
+			n = 11 + rnd.Intn(30)
+		}
+		minor := rnd.Intn(11)
+		code := names[n]
+		if code == "" {
+			code = "Future"
+		}
+		variant := rnd.Pick("", "", "Server ", "Atomic Host ")
+		if n >= 8 {
+			variant = ""
+		}
+		rh := []byte(fmt.Sprintf("Red Hat Enterprise Linux %srelease %d.%d (%s)\n", variant, n, minor, code))
+		if rnd.Chance(1, 6) {
+			rh = []byte(fmt.Sprintf("Red Hat Enterprise Linux %srelease %d.%d Beta (%s)\n", variant, n, minor, code))
+		}
+		kvs := []osKV{{key: "NAME", value: "Red Hat Enterprise Linux"}, {key: "VERSION", value: fmt.Sprintf("%d.%d (%s)", n, minor, code)}, {key: "ID", value: "rhel"},
+			{key: "ID_LIKE", value: "fedora"}, {key: "VERSION_ID", value: fmt.Sprintf("%d.%d", n, minor)}, {key: "PLATFORM_ID", value: fmt.Sprintf("platform:el%d", n)},
+			{key: "PRETTY_NAME", value: fmt.Sprintf("Red Hat Enterprise Linux %d.%d (%s)", n, minor, code)}, {key: "ANSI_COLOR", value: "0;31"},
+			{key: "CPE_NAME", value: fmt.Sprintf("cpe:/o:redhat:enterprise_linux:%d::baseos", n)}, {key: "HOME_URL", value: "https://www.redhat.com/"},
+			{key: "DOCUMENTATION_URL", value: fmt.Sprintf("https://access.redhat.com/documentation/en-us/red_hat_enterprise_linux/%d", n)},
+			{key: "REDHAT_BUGZILLA_PRODUCT", value: fmt.Sprintf("Red Hat Enterprise Linux %d", n)}, {key: "REDHAT_BUGZILLA_PRODUCT_VERSION", value: fmt.Sprintf("%d.%d", n, minor)},
+			{key: "REDHAT_SUPPORT_PRODUCT", value: "Red Hat Enterprise Linux"}, {key: "REDHAT_SUPPORT_PRODUCT_VERSION", value: fmt.Sprintf("%d.%d", n, minor)}}
+		osr := renderOsFile(rnd, kvs, []int{1})
+		layout := rnd.Intn(3)
+		hasRh, hasOsr := layout != 2, layout != 1
+		ds, ok := rhelOp(r, false, rh, osr, hasRh, hasOsr, true)
+		r.Case(fmt.Sprintf("rhel-dist %d", i), true)
+		r.Count(fmt.Sprintf("dist:rhel:layout:%d", layout))
+		r.Count(fmt.Sprintf("dist:rhel:variant:%q", variant))
+		wit := fmt.Sprintf("redhat-release=%s os-release=%s (layout %d)", quoteShort(rh), quoteShort(osr), layout)
+		ns := fmt.Sprint(n)
+		want, _ := cpe.Unbind("cpe:/o:redhat:enterprise_linux:" + ns)
+		switch {
+		case !ok || len(ds) != 1:
+			r.Fail("", fmt.Sprintf("rhel distribution scanner reports %d distributions (ok=%v) for %s", len(ds), ok, wit))
+		case ds[0].DID != "rhel" || ds[0].Version != ns || ds[0].VersionID != ns || ds[0].CPE != want || ds[0].PrettyName != "Red Hat Enterprise Linux Server "+ns:
+			r.Fail("", fmt.Sprintf("rhel distribution scanner reports %+v, the files state release %d: %s", *ds[0], n, wit))
+		default:
+			r.Count("dist:rhel:exact")
+		}
+		// an Oracle Linux layer carries Red Hat's release file, too: nothing
+		if ds, ok := rhelOp(r, true, rh, osr, hasRh, hasOsr, false); !ok || len(ds) != 0 {
+			r.Fail("", "rhel distribution scanner reports a distribution for a layer with etc/oracle-release")
+		}
+		// rebuilds: nothing
+		var c []byte
+		var cosr []byte
+		switch rnd.Intn(3) {
+		case 0:
+			c = []byte(fmt.Sprintf("CentOS Linux release %d.%d.2009 (Core)\n", n, minor))
+			cosr = renderOsFile(rnd, []osKV{{key: "NAME", value: "CentOS Linux"}, {key: "ID", value: "centos"}, {key: "ID_LIKE", value: "rhel fedora"}, {key: "VERSION_ID", value: ns}, {key: "PRETTY_NAME", value: "CentOS Linux " + ns + " (Core)"}, {key: "REDHAT_SUPPORT_PRODUCT", value: "centos"}}, []int{1})
+		case 1:
+			c = []byte(fmt.Sprintf("Rocky Linux release %d.%d (Green Obsidian)\n", n, minor))
+			cosr = renderOsFile(rnd, []osKV{{key: "NAME", value: "Rocky Linux"}, {key: "ID", value: "rocky"}, {key: "ID_LIKE", value: "rhel centos fedora"}, {key: "VERSION_ID", value: fmt.Sprintf("%d.%d", n, minor)}, {key: "PRETTY_NAME", value: fmt.Sprintf("Rocky Linux %d.%d (Green Obsidian)", n, minor)}, {key: "REDHAT_SUPPORT_PRODUCT", value: "Rocky Linux"}}, []int{1})
+		case 2:
+			c = []byte("Fedora release 39 (Thirty Nine)\n")
+			cosr = renderOsFile(rnd, []osKV{{key: "NAME", value: "Fedora Linux"}, {key: "ID", value: "fedora"}, {key: "VERSION_ID", value: "39"}, {key: "PRETTY_NAME", value: "Fedora Linux 39 (Container Image)"}, {key: "REDHAT_SUPPORT_PRODUCT", value: "Fedora"}}, []int{1})
+		}
+		if ds, ok := rhelOp(r, false, c, cosr, true, true, false); !ok || len(ds) != 0 {
+			r.Fail("", "rhel distribution scanner reports a distribution for "+quoteShort(c))
+		}
+		rhelOp(r, rnd.Chance(1, 10), mutateText(rnd, rh), mutateText(rnd, osr), rnd.Chance(3, 4), rnd.Chance(3, 4), true)
+	}
+	// edges of the expression, correspondence only
+	for _, s := range []string{
+		"Red Hat Enterprise Linux Workstation release 7.9 (Maipo)\n", "Red Hat Enterprise Linux 8\n", "Red Hat Enterprise Linux release8\n",
+		"Red Hat Enterprise Linux Server\n\n release\t 6.10\n", "Red Hat Enterprise Linux Serverrelease 7\n", "Red Hat Enterprise Linux Atomic Host 7\n",
+		"Red Hat Enterprise Linux release 99999999999999999999\n", "Red Hat Enterprise Linux release 9223372036854775807\n", "Red Hat Enterprise Linux release 9223372036854775808\n",
+		"Red Hat Enterprise Linux release 007.1\n", "xRed Hat Enterprise Linux Red Hat Enterprise Linux release 7.2\n", "Red Hat Enterprise Linux  release 7\n",
+		"Red Hat Enterprise Linux release x Red Hat Enterprise Linux Server 6\n", "red hat enterprise linux release 8\n", "", "Red Hat Enterprise Linux ",
+	} {
+		rhelOp(r, false, []byte(s), nil, true, false, true)
+		rhelOp(r, false, nil, []byte("PRETTY_NAME=\""+strings.TrimSpace(s)+"\"\n"), false, true, true)
+		r.Count("dist:rhel:edge")
+	}
+}
+
+// ---- debian, ubuntu ----
+
+func debianOp(r *hx.Run, osr []byte, has bool, nontrivial bool) ([]*claircore.Distribution, bool) {
+	var ents []ent
+	if has {
+		ents = append(ents, ent{path: "etc/os-release", data: osr})
+	}
+	ents = append(ents, ent{path: "etc/hostname", data: []byte("x\n")})
+	ds, ok := scanDist(&debian.DistributionScanner{}, ents)
+	r.Op("debdist "+optHex(osr, has), distProto(ds, ok), nontrivial)
+	return ds, ok
+}
+
+func ubuntuOp(r *hx.Run, lsb, osr []byte, hasLsb, hasOsr bool, nontrivial bool) ([]*claircore.Distribution, bool) {
+	var ents []ent
+	if hasLsb {
+		ents = append(ents, ent{path: "etc/lsb-release", data: lsb})
+	}
+	if hasOsr {
+		ents = append(ents, ent{path: "etc/os-release", data: osr})
+	}
+	ents = append(ents, ent{path: "etc/hostname", data: []byte("x\n")})
+	ds, ok := scanDist(&ubuntu.DistributionScanner{}, ents)
+	r.Op("ubudist "+optHex(lsb, hasLsb)+" "+optHex(osr, hasOsr), distProto(ds, ok), nontrivial)
+	return ds, ok
+}
+
+func runDebianUbuntuDist(r *hx.Run, rnd *hx.Rand, cfg hx.Config) {
 	debs := []struct {
 		n    int
 		name string
@@ -76,7 +359,7 @@ func runDistScanners(r *hx.Run, rnd *hx.Rand, cfg hx.Config) {
 			kvs = append(kvs, osKV{key: "VERSION_CODENAME", value: d.name})
 		}
 		file := renderOsFile(rnd, kvs, []int{0, 1, 2})
-		ds, ok := scanDist(&debian.DistributionScanner{}, []ent{{path: "etc/os-release", data: file}})
+		ds, ok := debianOp(r, file, true, true)
 		r.Case(fmt.Sprintf("debian-dist %d", i), true)
 		switch {
 		case !ok || len(ds) != 1:
@@ -86,31 +369,32 @@ func runDistScanners(r *hx.Run, rnd *hx.Rand, cfg hx.Config) {
 		default:
 			r.Count("dist:debian:exact")
 		}
+		debianOp(r, mutateText(rnd, file), rnd.Chance(9, 10), true)
 		// ubuntu, from os-release or lsb-release (the way Ubuntu ships them: bare or double-quoted)
 		u := ubus[rnd.Intn(len(ubus))]
-		var ents []ent
-		if rnd.Chance(1, 2) {
-			f := renderOsFile(rnd, []osKV{{key: "NAME", value: "Ubuntu"}, {key: "VERSION", value: u.ver + " LTS (" + strings.Title(u.name) + ")"}, {key: "ID", value: "ubuntu"}, {key: "ID_LIKE", value: "debian"}, {key: "VERSION_ID", value: u.ver}, {key: "VERSION_CODENAME", value: u.name}, {key: "UBUNTU_CODENAME", value: u.name}}, []int{0, 1})
-			ents = append(ents, ent{path: "etc/os-release", data: f})
-			file = f
-		} else {
-			f := renderOsFile(rnd, []osKV{{key: "DISTRIB_ID", value: "Ubuntu"}, {key: "DISTRIB_RELEASE", value: u.ver}, {key: "DISTRIB_CODENAME", value: u.name}, {key: "DISTRIB_DESCRIPTION", value: "Ubuntu " + u.ver + " LTS"}}, []int{0, 1})
-			ents = append(ents, ent{path: "etc/lsb-release", data: f})
-			file = f
-		}
-		ds, ok = scanDist(&ubuntu.DistributionScanner{}, ents)
+		osr := renderOsFile(rnd, []osKV{{key: "NAME", value: "Ubuntu"}, {key: "VERSION", value: u.ver + " LTS (" + strings.Title(u.name) + ")"}, {key: "ID", value: "ubuntu"}, {key: "ID_LIKE", value: "debian"}, {key: "VERSION_ID", value: u.ver}, {key: "VERSION_CODENAME", value: u.name}, {key: "UBUNTU_CODENAME", value: u.name}}, []int{0, 1})
+		lsb := renderOsFile(rnd, []osKV{{key: "DISTRIB_ID", value: "Ubuntu"}, {key: "DISTRIB_RELEASE", value: u.ver}, {key: "DISTRIB_CODENAME", value: u.name}, {key: "DISTRIB_DESCRIPTION", value: "Ubuntu " + u.ver + " LTS"}}, []int{0, 1})
+		layout := rnd.Intn(3)
+		hasLsb, hasOsr := layout != 1, layout != 2
+		ds, ok = ubuntuOp(r, lsb, osr, hasLsb, hasOsr, true)
 		r.Case(fmt.Sprintf("ubuntu-dist %d", i), true)
+		r.Count(fmt.Sprintf("dist:ubuntu:layout:%d", layout))
+		wit := fmt.Sprintf("lsb-release=%s os-release=%s (layout %d)", quoteShort(lsb), quoteShort(osr), layout)
 		switch {
 		case !ok || len(ds) != 1:
-			r.Fail("", fmt.Sprintf("ubuntu distribution scanner reports %d distributions for %s", len(ds), quoteShort(file)))
-		case ds[0].DID != "ubuntu" || ds[0].VersionID != u.ver || ds[0].VersionCodeName != u.name:
-			r.Fail("", fmt.Sprintf("ubuntu distribution scanner reports %+v for %s", *ds[0], quoteShort(file)))
+			r.Fail("", fmt.Sprintf("ubuntu distribution scanner reports %d distributions for %s", len(ds), wit))
+		case ds[0].DID != "ubuntu" || ds[0].VersionID != u.ver || ds[0].VersionCodeName != u.name || ds[0].Name != "Ubuntu":
+			r.Fail("", fmt.Sprintf("ubuntu distribution scanner reports %+v for %s", *ds[0], wit))
 		default:
 			r.Count("dist:ubuntu:exact")
 		}
+		ubuntuOp(r, mutateText(rnd, lsb), mutateText(rnd, osr), rnd.Chance(2, 3), rnd.Chance(2, 3), true)
 		// the other distribution's file: nothing
-		if ds, ok := scanDist(&debian.DistributionScanner{}, ents); !ok || len(ds) != 0 {
-			r.Fail("", "debian distribution scanner reports a distribution for an Ubuntu file "+quoteShort(file))
+		if ds, ok := debianOp(r, osr, true, false); !ok || len(ds) != 0 {
+			r.Fail("", "debian distribution scanner reports a distribution for an Ubuntu file "+quoteShort(osr))
+		}
+		if ds, ok := ubuntuOp(r, nil, file, false, true, false); !ok || len(ds) != 0 {
+			r.Fail("", "ubuntu distribution scanner reports a distribution for a Debian file "+quoteShort(file))
 		}
 	}
 }
